@@ -1,6 +1,8 @@
 package interpreter
 
 import (
+	"fmt"
+
 	"github.com/ah-naf/borno/ast"
 	"github.com/ah-naf/borno/environment"
 	"github.com/ah-naf/borno/token"
@@ -21,7 +23,19 @@ func NewFunction(declaration *ast.FunctionStmt, closure *environment.Environment
 	return &Function{Declaration: declaration, Closure: closure}
 }
 
+// maxCallDepth bounds the nesting of user-function calls. The evaluator recurses
+// on the Go stack; without a bound, runaway recursion in a program ends in a Go
+// stack overflow, which is not a recoverable panic: the whole process (in
+// interactive mode: the session) dies with a runtime trace and status 2.
+const maxCallDepth = 50000
+
 func (f *Function) Call(i *Interpreter, arguments []interface{}) (interface{}, error) {
+	if i.callDepth >= maxCallDepth {
+		return nil, fmt.Errorf("stack overflow: more than %d nested calls", maxCallDepth)
+	}
+	i.callDepth++
+	defer func() { i.callDepth-- }()
+
 	functionEnv := environment.NewEnvironmentWithParent(f.Closure)
 
 	functionEnv.Define(f.Declaration.Name.Lexeme, f)
